@@ -262,8 +262,24 @@ pub fn member_types() -> Vec<MemberTy>
 		MemberTy { text: "&i32", size: 8, align: 8 },
 		MemberTy { text: "[3]i8", size: 3, align: 1 },
 		MemberTy { text: "[2]i32", size: 8, align: 4 },
+		// compound members: another structure, an array of it, a word, a pointer to a structure, an
+		// array of named length, the widest unsigned types
+		MemberTy { text: "In", size: 8, align: 4 },
+		MemberTy { text: "[2]In", size: 16, align: 4 },
+		MemberTy { text: "W16", size: 2, align: 1 },
+		MemberTy { text: "&In", size: 8, align: 8 },
+		MemberTy { text: "[N]i16", size: 6, align: 2 },
+		MemberTy { text: "u128", size: 16, align: 8 },
+		MemberTy { text: "u8", size: 1, align: 1 },
 	]
 }
+
+/// Declarations the compound member types refer to.
+pub const MEMBER_HELPERS: &str = "const N: usize = 3;\nstruct In\n{\n\ta: i8,\n\tb: i32,\n}\nword16 W16\n{\n\ta: u8,\n\tb: u8,\n}\n";
+
+/// The first 11 member types are the primitive ones (all lists of three in both tiers); lists that
+/// contain a compound member have at most two members in the quick tier.
+pub const PRIMITIVE_MEMBERS: usize = 11;
 
 pub fn layout(members: &[&MemberTy]) -> (usize, usize)
 {
@@ -307,7 +323,7 @@ pub fn drive(d: &mut Driver)
 	d.bound("casts", json!("all 110 ordered pairs of distinct integer types"));
 	d.bound("two-operator expressions (both nestings, referring to another constant)", json!(nested_types.iter().map(|i| INT_TYPES[*i].name).collect::<Vec<_>>()));
 	d.bound("named lengths", json!("constant expressions evaluating to 0..8; arrays of length 0..8 through name, view, slice pointer, pointer and two call levels"));
-	d.bound("size-of", json!("every primitive and pointer type, arrays of length 0..4, structs with every member list of length 1..3 over 11 member types, arrays of them; each size both inside main and as a constant that is declared before the structure and behind an unrelated function with a pointer parameter"));
+	d.bound("size-of", json!("every primitive and pointer type, arrays of length 0..4, structs with every member list of length 1..3 over 11 primitive member types and of length 1..2 (thorough: 3) over 18 member types including a nested structure, an array of it, a word, a pointer to a structure and an array of named length, arrays of them; each size both inside main and as a constant that is declared before the structure and behind an unrelated function with a pointer parameter"));
 	d.phase("constant evaluation, lengths and sizes", jobs);
 	d.assume("reference arithmetic: engine/src/model/intval.rs (two's complement, wrapping, signedness-directed division and extension); cells with undefined behaviour (division by zero, MIN / -1, shift by the width or more) are excluded by the model");
 	d.assume("layout model: natural alignment capped at 8, pointers and usize 8 bytes, under the data layout string the generator installs");
@@ -691,6 +707,7 @@ fn word_sizes(bits: usize, w: &mut WorkerCtx)
 fn sizes(first: usize, w: &mut WorkerCtx)
 {
 	let ms = member_types();
+	let quick = w.tier == "quick";
 	// member lists of length 1..3 starting with `first`
 	let mut lists: Vec<Vec<usize>> = vec![vec![first]];
 	for b in 0..ms.len()
@@ -698,9 +715,14 @@ fn sizes(first: usize, w: &mut WorkerCtx)
 		lists.push(vec![first, b]);
 		for c in 0..ms.len()
 		{
+			if quick && (first >= PRIMITIVE_MEMBERS || b >= PRIMITIVE_MEMBERS || c >= PRIMITIVE_MEMBERS)
+			{
+				continue;
+			}
 			lists.push(vec![first, b, c]);
 		}
 	}
+	// the helper declarations come last: the sizes must not depend on that either
 	let mut text = String::new();
 	let mut expected: Vec<(String, usize, usize)> = Vec::new();
 	// the sizes as constants, declared before the structures they measure, each behind an unrelated
@@ -733,6 +755,7 @@ fn sizes(first: usize, w: &mut WorkerCtx)
 		plain.push(("&&i32".to_string(), 8));
 		plain.push(("[2][3]i16".to_string(), 12));
 	}
+	text.push_str(MEMBER_HELPERS);
 	text.push_str("fn main() -> u8\n{\n");
 	for (i, _) in lists.iter().enumerate()
 	{
